@@ -230,8 +230,8 @@ def c25_threads(case, trace, final):
                 return f"event {g}: the wrapped resource is disposed on client thread {tid}, not on the scheduler"
             if sched_seen == 0:
                 return f"event {g}: the wrapped resource is disposed before any dispose() scheduled an action"
-        if ev[0] == "ret" and cls in ("disposable", "boolean") and len(ev) > 2 and ev[2] is not True:
-            return f"event {g}: dispose() of thread {tid} returned but is_disposed is {ev[2]}"
+        if ev[0] in ("ret", "raise") and cls in ("disposable", "boolean") and len(ev) > 2 and ev[2] is not True:
+            return f"event {g}: dispose() of thread {tid} ended but is_disposed is {ev[2]}"
     if cls == "disposable" and calls and final["actions"] != 1:
         return f"at the end the action ran {final['actions']} times"
     if cls == "scheduled":
@@ -245,12 +245,13 @@ def c25_threads(case, trace, final):
 
 # ------------------------------------------------------------------------------------------------ C27
 def c27_events(case, events, final):
-    """events: [(tid, op_index_key, ev)] in global order, where for a history every call is its own group.
-    Checks: the underlying resource is disposed at most once, only after the primary dispose() was called and every
-    InnerDisposable handed out before was disposed at least once; exactly once at the end if all of that happened;
-    dependents requested after the release are inert."""
+    """events: [(tid, op, ev)] in global order.  Checks: the underlying resource is disposed at most once, only after the
+    primary dispose() was called and every dependent handed out *before the release* was disposed at least once
+    (whatever object the implementation handed out for it); exactly once at the end if all of that happened;
+    only dependents requested after the release may be inert, and those must be."""
     primary = False
-    created = []  # handle -> kind
+    created = []  # handle -> kind of the object handed out
+    required = []  # handle -> requested while the resource was not yet released: must be disposed before the release
     started = set()  # handles whose dispose() has begun
     und = 0
     und_at = None
@@ -261,13 +262,14 @@ def c27_events(case, events, final):
         if op[0] == "get" and k == "ret":
             h = ev[1]
             kind = final["deps"][h]
+            flag = ev[2] if len(ev) > 2 else None  # is_disposed when the request returned (None: unknown)
             while len(created) <= h:
                 created.append(None)
+                required.append(False)
             created[h] = kind
+            required[h] = (flag is False) or (flag is None and kind == "inner")
             if und_at is not None and kind != "inert":
                 return f"event {g}: dependent {h} requested after the resource was released is not inert"
-            if not primary and kind != "inner":
-                return f"event {g}: dependent {h} requested before any dispose() is not an InnerDisposable"
         if k == "begin":
             started.add(ev[1])  # dispose() of dependent ev[1] has been called
         if k == "D":
@@ -276,11 +278,11 @@ def c27_events(case, events, final):
                 return f"event {g}: thread {tid} disposes the underlying resource a second time"
             if not primary:
                 return f"event {g}: underlying resource disposed although the primary dispose() was never called"
-            live = [h for h, kd in enumerate(created) if kd == "inner" and h not in started]
+            live = [h for h, rq in enumerate(required) if rq and h not in started]
             if live:
-                return f"event {g}: underlying resource disposed while dependents {live} were never disposed"
+                return f"event {g}: underlying resource disposed while dependents {live} (handed out before the release) were never disposed"
             und_at = g
-    alldone = all(kd != "inner" or h in started for h, kd in enumerate(created))
+    alldone = all((not rq) or h in started for h, rq in enumerate(required))
     exp = 1 if (primary and alldone) else 0
     if final["cnt"][0] != exp:
         return f"at the end the underlying resource was disposed {final['cnt'][0]}x, expected {exp} (primary={primary}, all dependents disposed={alldone})"
@@ -334,5 +336,5 @@ def c27_history(case, out):
         for _ in range(obs["cnt"][0] - prev_cnt):
             evs.append((1, op, ["D", 0]))
         prev_cnt = obs["cnt"][0]
-        evs.append((1, op, ["ret", res[1] if res[0] == "ret" else None]))
+        evs.append((1, op, ["ret", res[1] if res[0] == "ret" else None, obs["is_disposed"]]))
     return c27_events(case, evs, final)
